@@ -98,7 +98,7 @@ ASSUMPTIONS = ['numpy elementwise arithmetic is trusted (the oracle is vectorise
 
 EPS = 1e-12
 PHASES = [0.0, 0.25, 0.5, -0.5, 0.75, 0.1, 0.37]
-FAR = [(4096.25, -4096.25), (1e6 + 0.5, 1e6 + 0.5)]
+FAR = [(4096.25, -4096.25), (1e6 + 0.5, 1e6 + 0.5), (-2e6 + 0.25, 3e6 - 0.25)]
 SIZES = {'quick': [0.75, 2.5, 11.0], 'thorough': [0.75, 2.5, 5.25, 11.0]}
 ANGLES = {'quick': [0.0, 30.0, 123.4], 'thorough': [0.0, 30.0, 45.0, 90.0, 123.4, -60.0]}
 NS = {'quick': [1, 2, 3, 5, 12], 'thorough': list(range(1, 13))}
@@ -228,7 +228,7 @@ def _centres(tier, seed):
     if tier == 'quick':
         k = int(seed) % len(PHASES)
         ax = [PHASES[k], PHASES[(k + 2) % 7], PHASES[(k + 5) % 7]]
-        return [(a, b) for a in ax for b in ax] + [FAR[int(seed) % 2]]
+        return [(a, b) for a in ax for b in ax] + FAR
     return [(a, b) for a in PHASES for b in PHASES] + FAR
 
 
